@@ -5,6 +5,33 @@ import progcheck as pc
 
 MODULES = ["Mimium.Props.C05"]
 
+# Evaluation order of a parameter-pack call.  `f({b = e1, a = e2})` builds a record first: mirgen evaluates the fields in
+# SORTED-NAME order (`alloc_record_aggregate` walks the canonical record type, fields sorted by key), then unpacks it into the
+# positional arguments.  The core `call` evaluates its arguments in parameter order, which is the same order unless the
+# parameter names do not sort positionally (`a9, a10`).  The published layout lists cells in evaluation order, so for such
+# a call the model input of THIS check binds the given arguments in mirgen's order first:
+#   (let rp<site>_<name> e … (call f site (var rp<site>_<name>) …))          (found by the thorough tier: deep:1:10998)
+import coregen as _cg
+_plain_sx = _cg.sx
+
+
+def _sx_pack_order(n):
+    if n.kind == "call" and len(n.a) > 3 and n.a[3] == "record":
+        names, omitted = n.a[4], n.a[5]
+        given = [nm for nm in names if nm not in omitted]
+        if sorted(given) != given:
+            site = n.a[2]
+            tmp = {nm: f"rp{site}_{nm}" for nm in given}
+            args = [f"(var {tmp[nm]})" if nm in tmp else _cg.sx(a) for nm, a in zip(names, n.a[1])]
+            out = f"(call {n.a[0]} {site} " + " ".join(args) + ")"
+            for nm in reversed(sorted(given)):
+                out = f"(let {tmp[nm]} {_cg.sx(n.a[1][names.index(nm)])} {out})"
+            return out
+    return _plain_sx(n)
+
+
+_cg.sx = _sx_pack_order
+
 
 def run_c05(cases, nshards=None):
     nshards = nshards or min(NCPU, max(1, len(cases) // 20))
@@ -14,15 +41,16 @@ def run_c05(cases, nshards=None):
         if not sh:
             return {}
         raw = run_isolated(os.path.join(BIN, "c05"), [(c["id"], json.dumps({"id": c["id"], "src": c["src"], "times": c["times"], "inputs": c["inputs"]})) for c in sh])
-        lines = "".join("\t".join([i] + f + ["-"] * (3 - len(f))) + "\n" for i, f in raw.items())
+        sxs = {c["id"]: (c.get("sx") or "-").replace("\t", " ").replace("\n", " ") for c in sh}
+        lines = "".join("\t".join([i] + f + ["-"] * (3 - len(f)) + [sxs.get(i, "-")]) + "\n" for i, f in raw.items())
         q = driver("C05", input=lines)
         res = {}
         for a, b in zip(lines.splitlines(), q.stdout.splitlines()):
             fa, fb = a.split("\t"), b.split("\t")
             if len(fa) >= 4 and len(fb) >= 2:
-                res[fa[0]] = (fa[1], fa[2], fa[3], fb[1])
+                res[fa[0]] = (fa[1], fa[2], fa[3], fb[1], fb[2] if len(fb) > 2 else "nomodel:no-verdict")
         for c in sh:
-            res.setdefault(c["id"], ("harness-died", "-", "-", "skip:harness-died"))
+            res.setdefault(c["id"], ("harness-died", "-", "-", "skip:harness-died", "nomodel:harness-died"))
         return res
     out = {}
     for r in parallel(shards, work, nproc=nshards):
@@ -30,7 +58,39 @@ def run_c05(cases, nshards=None):
     return out
 
 
-def judge(status, skel, recs, verdict, compare_words=True):
+def _mentions_self(n):
+    return n.kind == "self" or any(_mentions_self(ch) for _, ch in _cg.children(n))
+
+
+def shrink_layout_case(case, still_differs, budget=250):
+    """minimise a program on which model and compiler publish different layouts.  The generic shrinker keeps a function's
+    `uses_self` flag when it shrinks `self` out of the body (the S-expression would then declare a self shape the source no
+    longer has): such candidates are not programs of the fragment and are rejected."""
+    def pred(q):
+        try:
+            if any(f.uses_self != _mentions_self(f.body) for f in q.fns + [q.dsp]):
+                return False
+            return still_differs(q.src(), q.sx(), case["inputs"])
+        except Exception:
+            return False
+    try:
+        q = _cg.shrink(case["prog"], pred, budget)
+        return {"src": q.src(), "sx": q.sx(), "inputs": case["inputs"], "times": case["times"]}
+    except Exception as e:
+        return {"src": case["src"], "sx": case["sx"], "inputs": case["inputs"], "times": case["times"], "shrink_error": str(e)}
+
+
+def pubinfo(pub):
+    """`same cells=3 depth=1 …` -> ("same", {"cells": 3, …}); `diff model=F[..] cells=…` -> ("diff", {…, "model": "F[..]"})"""
+    f = pub.split(" ")
+    d = {}
+    for kv in f[1:]:
+        k, _, v = kv.partition("=")
+        d[k] = int(v) if v.isdigit() else v
+    return f[0], d
+
+
+def judge(status, skel, recs, verdict, pub="-", compare_words=True):
     """returns (reason or None, info)"""
     if status != "ok":
         cls = status.split(" ")[0]
@@ -53,6 +113,7 @@ def main(ctx, args):
         "hook runtime::vm::verif (cfg mimium_verif) records (kind, cursor, size) at GetState/SetState/Mem/Delay and asserts pos+size <= storage length",
         "Model/Layout.lean states what a published layout means for run-time accesses; only accesses to the global (dsp) storage are judged, closure storages are counted but not judged",
         "generator keeps stateful constructs out of `if` arms (known findings F3/F4) and one delay size per function (F2)",
+        "Model/Publish.lean is a hand port of how mirgen's eval_expr accumulates state_skeleton; its dsp skeleton (publishedSk (publishFn P dsp)) is compared with get_dsp_state_skeleton of the real compiler for every generated program",
     ]
     known = load_known("C05")
     if not extract(ctx):
@@ -66,7 +127,7 @@ def main(ctx, args):
     plan = [("core", 700), ("deep", 300), ("scalar", 400), ("scalar_deep", 300)] if ctx.tier == "quick" else [("core", 8000), ("deep", 3000), ("scalar", 4000), ("scalar_deep", 3000)]
     if args.replay:
         r = json.load(open(args.replay))
-        allcases = [{"id": "replay", "src": r["src"], "inputs": r.get("inputs", []), "times": r.get("times", 8)}]
+        allcases = [{"id": "replay", "src": r["src"], "sx": r.get("sx"), "inputs": r.get("inputs", []), "times": r.get("times", 8)}]
     else:
         allcases, off = [], 0
         for prof, n in plan:
@@ -74,13 +135,55 @@ def main(ctx, args):
             off += n
             allcases += cs
     res = run_c05(allcases)
+    # layout-only stream (compiled, not run: times = 0): the streams aimed AT findings F3 (state inside `if` arms) and F2
+    # (several delay sizes), where the run-time accesses are known to be wrong but what mirgen PUBLISHES is still modelled
+    lo_cases = []
+    if not args.replay:
+        for prof, n in ([("f3", 400), ("f2", 100)] if ctx.tier == "quick" else [("f3", 4000), ("f2", 1000)]):
+            cs, _ = pc.gen_cases(ctx.seed, n, prof, 0, start=0)
+            lo_cases += cs
+    lo_res = run_c05(lo_cases) if lo_cases else {}
     failures, stats, nontriv, samples = [], collections.Counter(), set(), []
+    layout_diffs, layout_samples, layout_nontriv = [], [], set()
+
+    def account_layout(c, status, skel, pub):
+        """published layout: Lean model of mirgen vs the real compiler (every program that compiled)"""
+        if skel in ("-", ""):
+            return
+        kind, pi = pubinfo(pub)
+        if kind == "same":
+            stats["layouts_compared"] += 1
+            stats["layouts_agree"] += 1
+            nt = pi.get("cells", 0) >= 2
+            incls = pi.get("cls", 0) == 1 and pi.get("sites", 0) == 1
+            inwide = pi.get("clsz", 0) == 1 and pi.get("sites", 0) == 1
+            stats["layout_in_wide_class"] += inwide
+            stats["layout_nontrivial_in_wide_class"] += (nt and inwide)
+            stats["layout_ge2_cells"] += nt
+            stats["layout_nested"] += pi.get("depth", 0) >= 1
+            stats["layout_nested2"] += pi.get("depth", 0) >= 2
+            stats["layout_with_delay"] += pi.get("delays", 0) >= 1
+            stats["layout_with_pruned_stateless_child"] += pi.get("zero", 0) >= 1
+            stats["layout_in_theorem_class"] += incls
+            stats["layout_outside_class_state_in_arms"] += pi.get("clsz", 0) == 0
+            stats["layout_nontrivial_in_class"] += (nt and incls)
+            if nt:
+                layout_nontriv.add(hash(c["src"]))
+            if nt and pi.get("depth", 0) >= 1 and pi.get("delays", 0) >= 1 and len(layout_samples) < 3:
+                layout_samples.append({"src": c["src"], "published": skel, "model": pub})
+        elif kind == "diff":
+            stats["layouts_compared"] += 1
+            layout_diffs.append((c, skel, pub, pi))
+        else:
+            stats["nomodel_" + pub.split(":")[-1][:60]] += 1
+
     for c in allcases:
-        status, skel, recs, verdict = res[c["id"]]
+        status, skel, recs, verdict, pub = res[c["id"]]
         stats["evaluations"] += 1
+        account_layout(c, status, skel, pub)
         # VM/WASM word comparison on the scalar profiles only: with tuples/closures the pinned WASM backend has the
         # defects listed under C01 (G1, G2, F18, F20), which also corrupt its state words
-        why, info = judge(status, skel, recs, verdict, compare_words=c.get("profile", "scalar").startswith("scalar"))
+        why, info = judge(status, skel, recs, verdict, pub, compare_words=c.get("profile", "scalar").startswith("scalar"))
         if why is None:
             if info:
                 n_acc = int(info.split(" ")[2])
@@ -92,6 +195,10 @@ def main(ctx, args):
                         samples.append({"src": c["src"], "layout": skel, "first_sample_record": recs.split("|")[0][:300]})
         else:
             failures.append((c, why, skel))
+    for c in lo_cases:
+        status, skel, recs, verdict, pub = lo_res[c["id"]]
+        stats["layout_only_programs"] += 1
+        account_layout(c, status, skel, pub)
     kres = run_c05([{"id": k["id"], "src": k["src"], "inputs": k.get("inputs", []), "times": k.get("times", 8)} for k in known if "src" in k], nshards=1) if known else {}
     for k in known:
         if "src" not in k:
@@ -115,7 +222,31 @@ def main(ctx, args):
             rep["shrunk"] = pc.shrink_case(c, still)
             rep["src"] = rep["shrunk"]["src"]
         ctx.violation(f"run-time state accesses do not match the published layout ({why[:300]}) on {len(failures)} programs; smallest:\n{rep['src']}", rep)
-    if not proved and not failures:
+    if layout_diffs:
+        # a disagreement between the Lean model of mirgen and the real mirgen: classify by the class predicates of the
+        # listed findings (F3: a cell with state published for an `if` arm, clsz=0; F2/G2 concern accesses/words, not the layout),
+        # everything else is reported as it is
+        layout_diffs.sort(key=lambda f: len(f[0]["src"]))
+        in_f3 = [d for d in layout_diffs if d[3].get("clsz", 1) == 0]
+        other = [d for d in layout_diffs if d[3].get("clsz", 1) != 0]
+        stats["layout_diffs_in_class_F3"] = len(in_f3)
+        stats["layout_diffs_other"] = len(other)
+        for group, label in ((other, "outside every listed class"), (in_f3, "state inside `if` arms (class of F3)")):
+            if not group:
+                continue
+            c, skel, pub, pi = group[0]
+            rep = {"src": c["src"], "sx": c.get("sx"), "inputs": c["inputs"], "times": c["times"], "published_by_compiler": skel,
+                   "published_by_model": pi.get("model"), "why": "layout:model-differs", "disagreeing_programs": len(group), "case_id": c["id"],
+                   "correspondence": "Model/Publish.lean publishFn vs mirgen state_skeleton"}
+            if "prog" in c:
+                def still_l(src, sx, inputs):
+                    r = run_c05([{"id": "s", "src": src, "sx": sx, "inputs": inputs, "times": 1}], nshards=1)["s"]
+                    return r[0] == "ok" and r[4].startswith("diff")
+                rep["shrunk"] = shrink_layout_case(c, still_l)
+                rep["src"], rep["sx"] = rep["shrunk"]["src"], rep["shrunk"]["sx"]
+            ctx.violation(f"the state layout the Lean model of mirgen publishes for dsp differs from the compiler's on {len(group)} programs, {label} "
+                          f"(compiler {skel}, model {pi.get('model')}); smallest:\n{rep['src']}", rep)
+    if not proved and not failures and not layout_diffs:
         ctx.violation("proof obligation broken: " + "; ".join(ctx._broken), {"stage": "prove", "theorems": ctx._broken,
                       "lake": getattr(ctx, "_lake_errors", "")}, found_input=False)
     ctx.coverage.update({
@@ -127,5 +258,20 @@ def main(ctx, args):
         "state_accesses_judged": stats["accesses_judged"],
         "layouts_nested": stats["layouts_nested"], "layouts_flat": stats["layouts_flat"],
         "failures": len(failures),
+        "published_layout_model_vs_compiler": {
+            "rule": "publishedSk (publishFn P dsp) of Model/Publish.lean, computed from the program's S-expression, equals get_dsp_state_skeleton of the real compiler (text equality of the skeleton); non-trivial = at least 2 cells",
+            "compared": stats["layouts_compared"], "of_which_layout_only_stream_f3_f2": stats["layout_only_programs"],
+            "distinct_with_ge2_cells": len(layout_nontriv),
+            "outside_class_state_in_arms": stats["layout_outside_class_state_in_arms"], "agree": stats["layouts_agree"], "disagree": len(layout_diffs),
+            "with_ge2_cells": stats["layout_ge2_cells"], "with_nested_children": stats["layout_nested"],
+            "with_children_nested_twice": stats["layout_nested2"], "with_delay": stats["layout_with_delay"],
+            "with_pruned_stateless_callee": stats["layout_with_pruned_stateless_child"],
+            "in_class_of_the_theorems(noStatefulInArms,SitesUnique)": stats["layout_in_wide_class"],
+            "nontrivial_and_in_class": stats["layout_nontrivial_in_wide_class"],
+            "in_narrow_class(noStateInArms: no named call at all in an arm)": stats["layout_in_theorem_class"],
+            "nontrivial_and_in_narrow_class": stats["layout_nontrivial_in_class"],
+            "no_model_layout": {k[len("nomodel_"):]: v for k, v in stats.items() if k.startswith("nomodel_")},
+            "samples": layout_samples,
+        },
     })
     ctx.finish("proof")
